@@ -91,6 +91,9 @@ var variants = []variant{
 	{"link-rel-target-from-decoy-cwd", "other/sub", "{R}/links/lnrel", "link-rel-cwd"},
 	{"link-chain", "other", "{R}/ln2", "link-chain"},
 	{"link-chain-across-dirs", "other/sub", "{R}/chainA/deep/first", "link-chain"},
+	{"link-to-link-abs-trailing-slash", "other", "{R}/lnslash", "link-chain"},
+	{"link-to-link-rel-trailing-slash", "other", "{R}/lnslashrel", "link-chain"},
+	{"link-abs-target-dot-segments", "other", "{R}/lndots", "link-chain"},
 	{"link-chain-across-dirs-rel", "chainA/deep", "first", "link-chain"},
 	{"link-trailing-slash", "other", "{R}/lnabs/", "link-slash"},
 	{"link-rel-trailing-slash", "other", "{R}/links/lnrel/", "link-slash"},
@@ -118,6 +121,9 @@ func setupArena(c Case) (r, src string, vars map[string]string, cleanup func(), 
 		{Path: "lnabs", Kind: "symlink", Target: "{R}/src"},
 		{Path: "parentlink", Kind: "symlink", Target: "."},
 		{Path: "ln2", Kind: "symlink", Target: "lnabs"},
+		{Path: "lnslash", Kind: "symlink", Target: "{R}/lnabs/"},
+		{Path: "lnslashrel", Kind: "symlink", Target: "lnabs/"},
+		{Path: "lndots", Kind: "symlink", Target: "{R}/other/../lnabs/."},
 		{Path: "chainA/deep/first", Kind: "symlink", Target: "../../chainB/second"},
 		{Path: "chainB/second", Kind: "symlink", Target: "../src"},
 	}
